@@ -83,7 +83,6 @@ func bFmt(x []bkv) string {
 	return s
 }
 
-
 func TestBoundedC19(t *testing.T) {
 	pool := [][]byte{{}, {0}, {1}, {1, 0}, {1, 0xff}, {1, 0xff, 0xff}, {2}, {0xff}, {0xff, 0xff}, {0x7f, 1}}
 	bounds := append([][]byte{nil}, pool[1:]...)
@@ -113,7 +112,9 @@ func TestBoundedC19(t *testing.T) {
 		{"goleveldb", func(i int) DB { return must(NewGoLevelDB(fmt.Sprintf("g%d", i), dir, 1)) }, true, true},
 		{"bolt", func(i int) DB { return must(NewBoltDB(fmt.Sprintf("b%d", i), dir, 1)) }, false, true},
 		{"prefix(memdb)", func(i int) DB { return NewPrefixDB(NewMemDB(), []byte{9, 0xff}) }, true, false},
-		{"prefix(goleveldb)", func(i int) DB { return NewPrefixDB(must(NewGoLevelDB(fmt.Sprintf("pg%d", i), dir, 1)), []byte{0xff, 0xff}) }, true, false},
+		{"prefix(goleveldb)", func(i int) DB {
+			return NewPrefixDB(must(NewGoLevelDB(fmt.Sprintf("pg%d", i), dir, 1)), []byte{0xff, 0xff})
+		}, true, false},
 	}
 	rng := rand.New(rand.NewSource(seed))
 	nfail, cases := 0, 0
